@@ -14,15 +14,14 @@ def main():
         if r.returncode: sys.exit(r.stderr)
     sh('git checkout -q -- . && git clean -qfd -e target')
     meta = json.load(open(f'{d}/m{n}.json'))
-    dest, cmd = meta['demo_dest'], meta['demo_cmd']
+    import re
+    dest, cmd = meta['demo_dest'], re.sub(r'CARGO_TARGET_DIR=\S+\s*', '', meta['demo_cmd'])  # the scratch worktree has its own target dir
     res = {'property': meta['property'], 'mutant': n}
     def demo():
-        if dest.endswith('.rs'):
-            os.makedirs(os.path.dirname(f'{WT}/{dest}'), exist_ok=True)
-            shutil.copy(f'{d}/m{n}_demo.rs', f'{WT}/{dest}')
+        os.makedirs(os.path.dirname(f'{WT}/{dest}') or WT, exist_ok=True)
+        shutil.copy(f'{d}/m{n}_demo.rs', f'{WT}/{dest}')
         r = sh(cmd)
-        if dest.endswith('.rs'):
-            os.remove(f'{WT}/{dest}')
+        os.remove(f'{WT}/{dest}')
         return r
     r = demo(); res['demo_without'] = r.returncode
     if r.returncode != 0: res['demo_without_tail'] = (r.stdout + r.stderr)[-600:]
